@@ -1,6 +1,7 @@
 (* C09 - relations read the same from both sides. *)
 From Coq Require Import List ZArith.
-From Verif Require Import Bytes Sem Index Join.
+From Coq Require Import Permutation.
+From Verif Require Import Bytes Sem Index Join JoinAgg.
 Import ListNotations.
 
 Theorem C09_membership : forall ls p c, In c (children ls p) <-> In (c, Some p) ls.
@@ -18,6 +19,28 @@ Theorem C09_filter_through_relation : forall P Q ps ls,
   (forall c, In c (children_with Q ls) <-> exists p, In (c, Some p) ls /\ Q p = true).
 Proof. intros P Q ps ls. split; [intros p; apply parents_with_spec | intros c; apply children_with_spec]. Qed.
 Print Assumptions C09_filter_through_relation.
+
+(* ordering through the relation: the sorted listing keeps every child (those without a parent included, first
+   ascending and last descending), and any plan whose listing is complete and ordered - from whichever side it starts,
+   with or without an index - shows the same sequence of sort keys *)
+Theorem C09_order_through_relation : forall desc key ls,
+  Permutation (order_children desc key ls) ls /\ ordered desc key (order_children desc key ls) /\
+  (forall l, Permutation l ls -> ordered desc key l -> map (ck key) l = map (ck key) (order_children desc key ls)).
+Proof.
+  intros desc key ls. split; [apply order_children_complete|]. split; [apply order_children_ordered|].
+  intros l. apply any_plan_agrees_with_sort.
+Qed.
+Print Assumptions C09_order_through_relation.
+
+(* aggregates through the relation: the parent side aggregates over exactly the children the child side selects by
+   "parent = p"; summed over the parents they give the aggregate over the children linked to one of them *)
+Theorem C09_aggregates_through_relation : forall w ps ls,
+  (forall (agg : list nat -> Z) p, agg (children ls p) = agg (children_with (fun q => Nat.eqb q p) ls)) /\
+  (NoDup ps -> total (fun p => wsum w (children ls p)) ps = wsum w (map fst (filter (linked_in ps) ls))).
+Proof.
+  intros w ps ls. split; [intros agg p; apply aggregates_direction_independent | apply totals_agree].
+Qed.
+Print Assumptions C09_aggregates_through_relation.
 
 (* local writes never leave a one-to-one link held by two documents *)
 Theorem C09_one_to_one_unique : forall ops, one_to_one_ok (fold_left (fun s o => fst (ustep s o)) ops []).
